@@ -2,7 +2,10 @@
 use crate::common::*;
 use crate::driver::*;
 use crate::proj::*;
+use crate::wire::{apply_tag, run_wire, rust_bytes, tlv, to_hex, WireCase, WireOutcome};
 use serde::{Deserialize, Serialize};
+use std::collections::HashMap;
+use std::sync::{Mutex, OnceLock};
 
 pub struct C03;
 
@@ -146,19 +149,209 @@ fn find_field<'a>(m: &'a ModProj, item: &str, name: &str) -> Option<(&'a Attrs, 
     }
 }
 
+// ------------------------------------------------------------------------------------------------ wire level
+// Reference DER encodings of one canonical value per tagged type (INTEGER 5, BOOLEAN TRUE, NULL, first
+// alternative, one element), computed from X.680 §31 / X.690 alone; the generated type must decode them with
+// rasn's DER codec and encode the decoded value to the same bytes.
+
+fn class_bits(c: &str) -> u8 {
+    match c {
+        "" => 2,
+        "APPLICATION" => 1,
+        "PRIVATE" => 3,
+        _ => 0,
+    }
+}
+
+/// (encoding, is an untagged CHOICE / open type) of the canonical value of the tagged type's base type
+fn base_enc(kind: &str, auto: bool) -> (Vec<u8>, bool) {
+    let x = if auto { vec![0x80, 1, 0xff] } else { vec![1, 1, 0xff] };
+    match kind {
+        "prim" => (vec![2, 1, 5], false),
+        "refseq" | "inseq" => (tlv(0, true, 16, &x), false),
+        "refchoice" | "inchoice" => (x, true),
+        _ => (vec![5, 0], true),
+    }
+}
+
+/// automatic tag [0] on the single untagged component `n` of an outer container
+fn auto0(enc: &[u8], is_choice: bool) -> Vec<u8> {
+    apply_tag(enc, 2, 0, is_choice)
+}
+
+/// (generated type name, reference encoding) per occurrence, plus `T`/`TN` of the automatic-tagging family
+pub fn reference_encodings(c: &Case) -> Vec<(String, Vec<u8>, bool)> {
+    let auto = c.default == "AUTOMATIC";
+    let mut out = vec![];
+    for (k, o) in c.occ.iter().enumerate() {
+        let (base, _) = base_enc(&o.kind, auto);
+        let tagged = apply_tag(&base, class_bits(&o.class), o.num, expect_explicit(&c.default, o));
+        let (name, enc) = match o.pos.as_str() {
+            "assign" => (format!("A{k}"), tagged),
+            "seqof" => (format!("L{k}"), tlv(0, true, 16, &tagged)),
+            "setof" => (format!("L{k}"), tlv(0, true, 17, &tagged)),
+            "compof" => {
+                let l = tlv(0, true, 16, &tagged);
+                let l = if auto { auto0(&l, false) } else { l };
+                (format!("S{k}"), tlv(0, true, 16, &l))
+            }
+            path => {
+                let parts: Vec<&str> = path.split('>').collect();
+                // innermost container holds the tagged component: never tagged automatically
+                let mut enc = tagged;
+                let mut is_choice = false;
+                for (i, cont) in parts.iter().rev().enumerate() {
+                    let content = if i == 0 || matches!(*cont, "seqof" | "setof") {
+                        enc.clone()
+                    } else if auto {
+                        auto0(&enc, is_choice)
+                    } else {
+                        enc.clone()
+                    };
+                    let (e, ch) = match *cont {
+                        "seq" | "seqof" => (tlv(0, true, 16, &content), false),
+                        "set" | "setof" => (tlv(0, true, 17, &content), false),
+                        _ => (content, true),
+                    };
+                    enc = e;
+                    is_choice = ch;
+                }
+                (format!("S{k}"), enc)
+            }
+        };
+        out.push((name, enc, true));
+    }
+    if let Some((kind, mask, nested)) = &c.auto {
+        let automatic = auto && *mask == 0;
+        let explicit = c.default == "EXPLICIT" || c.default.is_empty();
+        let bases: [Vec<u8>; 3] = [vec![1, 1, 0xff], vec![2, 1, 5], vec![5, 0]];
+        let mut comps: Vec<Vec<u8>> = vec![];
+        for (i, b) in bases.iter().enumerate() {
+            if automatic {
+                comps.push(apply_tag(b, 2, i as u32, false));
+            } else if mask & (1 << i) != 0 {
+                comps.push(apply_tag(b, 2, i as u32, explicit));
+            } else {
+                comps.push(b.clone());
+            }
+        }
+        let (inner, is_choice, strict) = match kind.as_str() {
+            "SEQUENCE" => (tlv(0, true, 16, &comps.concat()), false, true),
+            "SET" => {
+                // DER: components of a SET in the canonical order of their tags (class, then number)
+                let mut cs = comps.clone();
+                cs.sort_by_key(|e| (e[0] >> 6, e[0] & 0x1f));
+                (tlv(0, true, 17, &cs.concat()), false, false)
+            }
+            _ => (comps[0].clone(), true, true),
+        };
+        if *nested {
+            // T ::= SEQUENCE { n <inner> }: the outer SEQUENCE has no tagged component, so AUTOMATIC applies to it
+            let n = if auto { auto0(&inner, is_choice) } else { inner };
+            out.push(("T".into(), tlv(0, true, 16, &n), strict));
+        } else {
+            out.push(("T".into(), inner, strict));
+        }
+    }
+    out
+}
+
+fn wire_results() -> &'static Mutex<HashMap<u64, Result<String, String>>> {
+    static R: OnceLock<Mutex<HashMap<u64, Result<String, String>>>> = OnceLock::new();
+    R.get_or_init(|| Mutex::new(HashMap::new()))
+}
+
+/// cases of the wire subset: context / application class, number 5 (plus the long-form number 300 on type
+/// assignments), paths up to depth 2, every default, keyword and kind; the automatic-tagging family;
+/// thorough: every class and the depth-3 paths as well
+fn in_wire_subset(c: &Case, thorough: bool) -> bool {
+    if c.occ.len() > 1 {
+        return false; // compositions are judged at attribute level only
+    }
+    if c.ext_implied {
+        return thorough;
+    }
+    match c.occ.first() {
+        None => true,
+        Some(o) => (o.num == 5 || (o.num == 300 && o.pos == "assign")) && (thorough || (matches!(o.class.as_str(), "" | "APPLICATION") && o.pos.matches('>').count() < 2)),
+    }
+}
+
+fn wire_batch(cases: &[Case]) -> Result<(), String> {
+    use rayon::prelude::*;
+    let gens: Vec<(u64, Option<String>)> = cases
+        .par_iter()
+        .map(|c| {
+            let src = text(c);
+            let g = match compile1(&src) {
+                Outcome::Ok { generated, warnings } if warnings.is_empty() => Some(generated),
+                _ => None,
+            };
+            (fnv(&src), g)
+        })
+        .collect();
+    let mut wcs = vec![];
+    let mut idx_of: HashMap<usize, u64> = HashMap::new();
+    for (i, (c, (h, g))) in cases.iter().zip(gens.iter()).enumerate() {
+        let g = match g {
+            Some(g) => g,
+            None => continue,
+        };
+        if wire_results().lock().unwrap().contains_key(h) || idx_of.values().any(|x| x == h) {
+            continue;
+        }
+        let mut body = String::from("    let mut r = String::new();\n");
+        for (name, enc, _) in reference_encodings(c) {
+            body += &format!("    r += &format!(\"{name}={{}};\", wsupport::roundtrip::<m::{name}>({}));\n", rust_bytes(&enc));
+        }
+        body += "    r";
+        wcs.push(WireCase { idx: i, generated: g.clone(), test_body: body });
+        idx_of.insert(i, *h);
+    }
+    if wcs.is_empty() {
+        return Ok(());
+    }
+    let res = run_wire(&wcs)?;
+    let mut map = wire_results().lock().unwrap();
+    for (i, h) in idx_of {
+        match res.get(&i) {
+            Some(WireOutcome::Ran(s)) => {
+                map.insert(h, Ok(s.clone()));
+            }
+            Some(WireOutcome::CompileError(e)) => {
+                map.insert(h, Err(e.clone()));
+            }
+            None => return Err(format!("no wire result for case {i}")),
+        }
+    }
+    Ok(())
+}
+
 impl Prop for C03 {
     type Case = Case;
     fn id(&self) -> &'static str {
         "C03"
     }
     fn rule(&self) -> String {
-        "complete product: module default {none,EXPLICIT,IMPLICIT,AUTOMATIC} × keyword {none,IMPLICIT,EXPLICIT} × class {context,APPLICATION,PRIVATE,UNIVERSAL} × number {0,5,300} × position {type assignment, SEQUENCE/SET component, CHOICE alternative, component of a nested anonymous SEQUENCE / CHOICE (depth 2 and 3), SEQUENCE OF / SET OF element (top-level and inside a component)} × tagged type {primitive, referenced SEQUENCE, referenced CHOICE, inline CHOICE, inline SEQUENCE, open type}, minus IMPLICIT on CHOICE/open type; plus the automatic-tagging predicate {4 defaults}×{SEQUENCE,SET,CHOICE}×{8 tagged subsets of 3 components}×{top-level,nested}; thorough adds every ordered pair of occurrences at different positions in one module (independence) and EXTENSIBILITY IMPLIED. Oracle: X.680 §31.2.7 / §25.3 / §29.2 reference on the #[rasn(tag(..))] / automatic_tags attributes. For CHOICE/open-typed *components* only (class, number) are compared (rasn wraps those itself). Non-trivial: compiled cleanly and the item/field that should carry the tag was found.".into()
+        "(attribute level + wire level: for the subset number 5 (300 on type assignments) x every default, keyword, kind and path up to depth 2 (thorough: depth 3 and every class) and the automatic-tagging family, the bindings are compiled and run: rasn's DER codec must decode the reference encoding computed from X.680 31 / X.690 of a canonical value and re-encode it identically) complete product: module default {none,EXPLICIT,IMPLICIT,AUTOMATIC} × keyword {none,IMPLICIT,EXPLICIT} × class {context,APPLICATION,PRIVATE,UNIVERSAL} × number {0,5,300} × position {type assignment, SEQUENCE/SET component, CHOICE alternative, component of a nested anonymous SEQUENCE / CHOICE (depth 2 and 3), SEQUENCE OF / SET OF element (top-level and inside a component)} × tagged type {primitive, referenced SEQUENCE, referenced CHOICE, inline CHOICE, inline SEQUENCE, open type}, minus IMPLICIT on CHOICE/open type; plus the automatic-tagging predicate {4 defaults}×{SEQUENCE,SET,CHOICE}×{8 tagged subsets of 3 components}×{top-level,nested}; thorough adds every ordered pair of occurrences at different positions in one module (independence) and EXTENSIBILITY IMPLIED. Oracle: X.680 §31.2.7 / §25.3 / §29.2 reference on the #[rasn(tag(..))] / automatic_tags attributes. For CHOICE/open-typed *components* only (class, number) are compared (rasn wraps those itself). Non-trivial: compiled cleanly and the item/field that should carry the tag was found.".into()
     }
     fn selftest(&self) -> Result<u64, String> {
         if parse_tag("explicit(context,5)") != Some(Tag { explicit: true, class: "context".into(), num: 5 }) || parse_tag("application,300") != Some(Tag { explicit: false, class: "application".into(), num: 300 }) {
             return Err("parse_tag".into());
         }
-        Ok(2)
+        crate::wire::selftest()?;
+        // reference encodings of hand-computed cases (X.690): [5] IMPLICIT INTEGER 5; [APPLICATION 5] EXPLICIT SEQUENCE { x BOOLEAN };
+        // AUTOMATIC: S ::= SEQUENCE { n CHOICE { ctag [5] INTEGER } } -> n is [0] EXPLICIT around the CHOICE value
+        let occ = |kw: &str, class: &str, pos: &str, kind: &str| Occ { kw: kw.into(), class: class.into(), num: 5, pos: pos.into(), kind: kind.into() };
+        let enc = |d: &str, o: Occ| reference_encodings(&Case { default: d.into(), occ: vec![o], auto: None, ext_implied: false })[0].1.clone();
+        if enc("IMPLICIT", occ("", "", "assign", "prim")) != vec![0x85, 1, 5] || enc("IMPLICIT", occ("EXPLICIT", "APPLICATION", "assign", "inseq")) != vec![0x65, 5, 0x30, 3, 1, 1, 0xff] || enc("AUTOMATIC", occ("", "", "seq>choice", "prim")) != vec![0x30, 5, 0xa0, 3, 0x85, 1, 5] || enc("", occ("", "", "set", "refchoice")) != vec![0x31, 5, 0xa5, 3, 1, 1, 0xff] {
+            return Err("reference encodings".into());
+        }
+        let auto = reference_encodings(&Case { default: "AUTOMATIC".into(), occ: vec![], auto: Some(("SEQUENCE".into(), 0, false)), ext_implied: false });
+        if auto[0].1 != vec![0x30, 8, 0x80, 1, 0xff, 0x81, 1, 5, 0x82, 0] {
+            return Err("automatic tagging reference".into());
+        }
+        Ok(9)
     }
     fn enumerate(&self, tier: Tier, _seed: u64) -> Vec<Case> {
         let defaults = ["", "EXPLICIT", "IMPLICIT", "AUTOMATIC"];
@@ -246,6 +439,13 @@ impl Prop for C03 {
                 }
             }
         }
+        // wire level: the selected cases are compiled together with their reference encodings and run on rasn's DER codec
+        let subset: Vec<Case> = out.iter().filter(|c| in_wire_subset(c, tier.thorough())).cloned().collect();
+        if let Err(e) = wire_batch(&subset) {
+            eprintln!("MACHINERY: {e}");
+            std::process::exit(2);
+        }
+        WIRE_BATCH_DONE.store(true, std::sync::atomic::Ordering::SeqCst);
         out
     }
     fn check(&self, c: &Case) -> CaseResult {
@@ -375,6 +575,49 @@ impl Prop for C03 {
                 }
             }
         }
-        CaseResult { discs, nontrivial: found_all, outcome: format!("ok:{}", c.occ.first().map(|o| o.pos.clone()).unwrap_or("auto".into())), skipped: None }
+        // ---- wire level
+        let h = fnv(&src);
+        let mut wr = wire_results().lock().unwrap().get(&h).cloned();
+        if wr.is_none() && !WIRE_BATCH_DONE.load(std::sync::atomic::Ordering::SeqCst) {
+            // replay path: judge this single case
+            if let Err(e) = wire_batch(std::slice::from_ref(c)) {
+                return CaseResult { discs: vec![Disc::new("tag|wire|machinery".to_string(), e)], nontrivial: false, outcome: "machinery".into(), skipped: None };
+            }
+            wr = wire_results().lock().unwrap().get(&h).cloned();
+        }
+        let mut wired = false;
+        if let Some(wr) = wr {
+            wired = true;
+            let refs = reference_encodings(c);
+            let key_of = |name: &str| -> String {
+                if name == "T" {
+                    let (kind, mask, nested) = c.auto.clone().unwrap_or_default();
+                    format!("auto|default={dflt}|kind={kind}|tagged={}|nested={nested}", mask.count_ones())
+                } else {
+                    let k: usize = name[1..].parse().unwrap_or(0);
+                    let oc = &c.occ[k.min(c.occ.len() - 1)];
+                    format!("tag|default={dflt}|kw={}|class={}|pos={}|kind={}", if oc.kw.is_empty() { "none" } else { &oc.kw }, class_rust(&oc.class), oc.pos, oc.kind)
+                }
+            };
+            match wr {
+                Err(e) => {
+                    // bindings that do not compile are C01's subject; here they only make the wire run impossible
+                    discs.push(Disc::new(format!("{}|wire=does-not-compile", key_of(&refs.first().map(|r| r.0.clone()).unwrap_or("T".into()))), format!("{e}\n{src}\n{gen}")));
+                }
+                Ok(line) => {
+                    for (name, enc, strict) in &refs {
+                        let res = line.split(';').find_map(|p| p.strip_prefix(&format!("{name}="))).unwrap_or("no-result");
+                        let class = res.split(':').next().unwrap_or("");
+                        let ok = class == "ok" || (!strict && class == "reenc");
+                        if !ok {
+                            discs.push(Disc::new(format!("{}|wire={class}", key_of(name)), format!("type {name}: reference DER {} -> {res}\n{src}\n{gen}", to_hex(enc))));
+                        }
+                    }
+                }
+            }
+        }
+        CaseResult { discs, nontrivial: found_all, outcome: format!("ok:{}{}", c.occ.first().map(|o| o.pos.clone()).unwrap_or("auto".into()), if wired { "+wire" } else { "" }), skipped: None }
     }
 }
+
+static WIRE_BATCH_DONE: std::sync::atomic::AtomicBool = std::sync::atomic::AtomicBool::new(false);
